@@ -488,7 +488,8 @@ func (e *Env) Observe(l string) (LedgerObs, error) {
 	obs := LedgerObs{Txs: []TxObs{}, Accts: []AcctObs{}, Logs: []LogObs{}, Vols: []VolB{}, Agg: []AggB{}}
 	moves := e.hasFeature(l, "MOVES_HISTORY", "ON")
 	eff := moves && e.hasFeature(l, "MOVES_HISTORY_POST_COMMIT_EFFECTIVE_VOLUMES", "SYNC")
-	obs.Flags = Flags{Moves: moves, Eff: eff, Hash: e.hasFeature(l, "HASH_LOGS", "SYNC"),
+	obs.Flags = Flags{Moves: moves, Eff: eff, EffSync: e.hasFeature(l, "MOVES_HISTORY_POST_COMMIT_EFFECTIVE_VOLUMES", "SYNC"),
+		Hash: e.hasFeature(l, "HASH_LOGS", "SYNC"),
 		AMH: e.hasFeature(l, "ACCOUNT_METADATA_HISTORY", "SYNC"), TMH: e.hasFeature(l, "TRANSACTION_METADATA_HISTORY", "SYNC")}
 	txPath := "/v2/" + l + "/transactions?pageSize=100&expand=volumes"
 	if eff {
